@@ -1629,6 +1629,18 @@ func generateScenarios(prop string, seed uint64, n int, adv bool) []*scenario {
 					f := []J{{"code": 409, "reason": "Conflict"}, {"code": 409, "reason": "AlreadyExists"}, {"code": 500, "reason": "InternalError"}}[r.Intn(3)]
 					rs.FaultOn = []faultOn{{Verb: verb, Kind: "ControllerRevision", Fault: f}}
 					sc.Features = append(sc.Features, "revision-write-fault")
+				case 2:
+					if !sc.Ctl.GenSelector {
+						// the parent's ControllerRevisions have lost their owner (parent deleted with its dependents
+						// orphaned and created again, say) and the request that adopts one of them back fails
+						rs.PreOps = append(rs.PreOps, extOp{Op: "orphan-revisions"})
+						f := []J{{"code": 409, "reason": "Conflict"}, {"code": 500, "reason": "InternalError"}, {"code": 403, "reason": "Forbidden"}}[r.Intn(3)]
+						rs.FaultOn = []faultOn{{Verb: "update", Kind: "ControllerRevision", Nth: r.Intn(2), Fault: f}}
+						if r.Chance(1, 3) {
+							rs.FaultOn = []faultOn{{Verb: "get", Kind: sc.Ctl.ParentKind, Nth: 0, Fault: J{"code": 500, "reason": "InternalError"}}}
+						}
+						sc.Features = append(sc.Features, "revision-adoption-fault")
+					}
 				case 1:
 					cut := r.Intn(8)
 					rs.Faults = map[string]J{}
